@@ -44,7 +44,7 @@ def run(c):
     if r.violated != "CrashAtomic":
         raise Broken("the model does not distinguish one ref update per entity from one per pack (vacuity guard)")
     out = os.path.join(c.scratch, "crash.ndjson")
-    ngen = 3 if c.tier == "quick" else 60
+    ngen = 3 if c.tier == "quick" else 250
     c.vh(["crash", out, ngen], timeout=6000, env={"VERIF_TIER": c.tier})
     lines = [l.rstrip("\n") for l in open(out)]
     if len(lines) < 200:
